@@ -1,8 +1,9 @@
-(* C07 — outbound IBC transfers are tracked and recovered without loss or duplication (contract level; the
-   correspondence between the chain's packet table and the contract's records over whole histories is the
-   world-level part, Properties/World.v). *)
-From MW Require Import Staking.
-From MW.Proofs Require Import Tactics Handlers Maps Invariant Pagination Recovery.
+(* C07 — outbound IBC transfers are tracked and recovered without loss or duplication (contract level, and at the end of
+   this file the correspondence between the chain's packet table and the contract's records over whole histories of
+   the world model of World.v, whose chain semantics -- atomic transactions, a reply per accepted transfer, sudo
+   callbacks for settlements -- are assumed). *)
+From MW Require Import Staking World.
+From MW.Proofs Require Import Tactics Handlers Maps Invariant Pagination Recovery WorldProofs.
 From MW.Gen Require Import Consts.
 Open Scope N_scope.
 
@@ -82,3 +83,35 @@ Theorem C07_transfers_have_callback_and_timeout : forall va dv av s e i m s' r,
   execute va dv av s e i m = Ok (s', r) -> forall sm, In sm r -> is_transfer sm = true -> well_formed_transfer s e sm.
 Proof. exact transfers_have_callback_and_timeout. Qed.
 Print Assumptions C07_transfers_have_callback_and_timeout.
+
+(* --- the world --- *)
+(* W_inv: at every transaction boundary the contract's record table is exactly the image of the chain's packets that
+   are still tracked (a packet stops being tracked by its success acknowledgement or by a recovery that names it): same
+   sequence, coin and receiver; Sent while in flight, AckFailure / TimedOut once refunded; sequences are unique. It holds
+   after instantiation and is kept by every event as long as the channel is not reconfigured. *)
+Theorem C07_world_invariant : forall va dv av e i m s r evs,
+  instantiate va e i m = Ok (s, r) -> events_ok va dv av (routing_kept va dv av) (world0 s) evs ->
+  W_inv (wrun va dv av (world0 s) evs).
+Proof. intros va dv av e i m s r evs H Hok. apply wrun_inv; [eapply world0_inv; exact H | exact Hok]. Qed.
+Print Assumptions C07_world_invariant.
+
+(* every record stands for a packet of the chain that has not been delivered, with the same coin and receiver *)
+Theorem C07_record_has_packet : forall w k q,
+  W_inv w -> nfind k (inflight (w_store w)) = Some q ->
+  exists p, In p (w_packets w) /\ wp_seq p = k /\ wp_coin p = p_coin q /\ wp_receiver p = p_receiver q
+            /\ p_seq q = k /\ p_status q = status_of (wp_state p) /\ wp_state p <> Delivered.
+Proof. exact recorded_until_settled. Qed.
+Print Assumptions C07_record_has_packet.
+
+(* every tracked packet is recorded, with the status that matches its fate *)
+Theorem C07_packet_is_recorded : forall w p,
+  W_inv w -> In p (w_packets w) -> wp_tracked p = true ->
+  nfind (wp_seq p) (inflight (w_store w))
+  = Some {| p_seq := wp_seq p; p_coin := wp_coin p; p_receiver := wp_receiver p; p_status := status_of (wp_state p) |}.
+Proof. exact flight_is_recorded. Qed.
+Print Assumptions C07_packet_is_recorded.
+
+(* a transaction one of whose messages the chain refuses leaves the world as it was *)
+Theorem C07_refused_transaction_changes_nothing : forall va dv av w e i m, wstep va dv av w (WExecRefused e i m) = w.
+Proof. reflexivity. Qed.
+Print Assumptions C07_refused_transaction_changes_nothing.
